@@ -171,7 +171,7 @@ def run(tier, seed, argv):
     rep = Report("C01", tier, seed)
     jobs = jobs_for(tier)
     # seeded sample of the option product (graft x nesterov x bias correction x decoupled x layout x schedule x dtype pair x overrides x presence)
-    jobs += [dict(id=f"r{i}", module="checks.c01", factory="make", cfg=c) for i, c in enumerate(random_cfgs(seed, 8 if tier == "quick" else 60, tier=tier))]
+    jobs += [dict(id=f"r{i}", module="checks.c01", factory="make", cfg=c) for i, c in enumerate(random_cfgs(seed, 8 if tier == "quick" else 400, tier=tier))]
     if argv:
         jobs = [j for j in jobs if j["id"] in argv]
     rep.bounds = dict(configs=len(jobs), steps="T<=2 plain, T<=4 re-based", shapes="<=8 elements per parameter, blocks of side<=2..4",
